@@ -81,6 +81,8 @@ class ConfigNodeMeta(NamespaceableMeta):
                         setattr(value, '_' + arg_name, kwargs[arg_name])
                 if any(k.startswith('implicit_') for k in kwargs.keys()):
                     value._propagate_implicit_values()
+                if kwargs.get('priority') is not None:
+                    value._propagate_priority()
 
                 return value
             else:
@@ -402,6 +404,9 @@ class ConfigNode(metaclass=ConfigNodeMeta):
                 raise errors.UnsafeError(None, self, path)
 
     def _propagate_implicit_values(self):
+        return
+
+    def _propagate_priority(self):
         return
 
     #
